@@ -131,7 +131,7 @@ class Ctx:
 # Hypothesis helper: collect-then-shrink
 # ---------------------------------------------------------------------------------------------
 
-def hyp_run(ctx, strategy, body, n, shrink_calls=400, label="") -> None:
+def hyp_run(ctx, strategy, body, n, shrink_calls=400, shrink_seconds=15.0, label="") -> None:
     """Run `body(case) -> iterable[(sig, msg)]` over `n` generated cases.  Failures are collected by
     signature (generation continues behind them); each *unlisted* signature is then shrunk with a
     second, signature-restricted Hypothesis run whose minimal example becomes the replay case."""
@@ -175,14 +175,15 @@ def hyp_run(ctx, strategy, body, n, shrink_calls=400, label="") -> None:
         @given(strategy)
         def shrink(case):
             calls[0] += 1
-            if calls[0] > n + shrink_calls and best[0] is not None:
-                return
+            if best[0] is not None and (calls[0] > n + shrink_calls or time.time() - t_shrink > shrink_seconds):
+                return      # shrink budget spent: the smallest failing case seen so far is kept
             for s, _ in run_body(case):
                 if s == sig:
                     best[0] = case
                     raise _Found()
 
         ctx.muted = True
+        t_shrink = time.time()
         try:
             shrink()
         except _Found:
@@ -206,6 +207,8 @@ def _load(prop):
 def _worker(args):
     prop, tier, seed, idx, shard, known_sigs = args
     try:
+        import logging
+        logging.disable(logging.CRITICAL)      # the library logs every parse failure; checks that observe logs re-enable it
         mod = _load(prop)
         ctx = Ctx(prop, tier, seed, idx, known_sigs)
         t0 = time.time()
@@ -354,6 +357,9 @@ def main(argv=None):
         for lst in sample_lists:
             if rank < len(lst) and len(samples) < MAX_SAMPLES * 2 and lst[rank] not in samples:
                 samples.append(lst[rank])
+
+    if hasattr(mod, "summarize"):
+        mod.summarize(classes)
 
     # ---- floors (anti-vacuity) ----
     floors = getattr(mod, "FLOORS", {}).get(a.tier, {}) if not a.only else {}
